@@ -17,7 +17,7 @@ from fimmc.topo import Raw, NN, COMP, NS, CP, LINK
 LEVEL = 'exploration'
 world.install_uuid_seam()
 DELEG_PROPS = ('LabelDelegations', 'CapacityDelegations')
-MENU_Q = ('none', 'L@d1', 'C@d1', 'LC@d1', 'LC@d2', 'L@d1,C@d2', 'LC@d1&d2', 'pooldef@d1', 'poolref@d1')
+MENU_Q = ('none', 'L@d1', 'C@d1', 'LC@d1', 'LC@d2', 'L@d1,C@d2', 'LC@d1&d2', 'pooldef@d1', 'poolref@d1', 'poolrefonly@d1')
 MENU_T = ('none', 'L@d1', 'LC@d1', 'LC@d2', 'L@d1,C@d2', 'LC@d1&d2')
 
 
@@ -50,7 +50,7 @@ def eval_vector(case):
     els = elements(ids, variant)
     ctx = f'[variant {variant} assignment {dict(zip([e.split("-", 1)[1] for e in els], choice))}]'
     for e, c in zip(els, choice):
-        annotate(arm, e, c, pool_tag=e)
+        annotate(arm, e, c, pool_tag=e, ref_tag=els[0])
     gid = arm.graph_id
     raw0, nodes0, edges0 = snapshot(gid)
     want_ids = set()
